@@ -362,7 +362,7 @@ RULES = [
     ("CMP-LOWER", lambda ctx: None, 3),
     ("KEYREF", lambda ctx: None, 4),
     ("DUP", rule_dup, 2),
-    ("DERIVES", rule_derives, 8),
+    ("DERIVES", rule_derives, 4),
 ]
 
 MANIFEST = {
